@@ -1,5 +1,6 @@
 //! Findings maps (DESIGN 3.4): any subset of patterns, 0-4 files per pattern (a key with an
-//! empty file vector has no finding; the renderers guard for it), every file at least one line.
+//! empty file vector has no finding; the renderers guard for it), occasionally 250-300 files under one
+//! pattern; a file entry with an empty line set only next to entries that do have lines.
 
 use crate::patterns::{self, Pat};
 use proptest::prelude::*;
@@ -19,6 +20,9 @@ pub fn file_name() -> impl Strategy<Value = String> {
     prop_oneof![
         6 => "[a-zA-Z][a-zA-Z0-9_]{0,10}\\.sol",
         2 => Just("Token.sol".to_string()),
+        1 => Just("Counter.t.sol".to_string()),
+        1 => Just("Vault.T.sol".to_string()),
+        1 => Just("README.md".to_string()),
         1 => "[a-z]{1,4}:[0-9]{1,3}\\.sol",
         1 => Just("- item.sol".to_string()),
         1 => Just("# Heading.sol".to_string()),
@@ -37,13 +41,29 @@ pub fn line_set() -> impl Strategy<Value = BTreeSet<i32>> {
     prop::collection::btree_set(prop_oneof![6 => 1..60i32, 1 => 0..=i32::MAX, 1 => Just(0i32), 1 => Just(i32::MAX)], 1..5)
 }
 
+/// The (file, lines) vector of one pattern; `allow_empty` also yields the empty vector.
+pub fn files(allow_empty: bool) -> impl Strategy<Value = Vec<(String, BTreeSet<i32>)>> {
+    prop_oneof![
+        24 => prop::collection::vec((file_name(), line_set()), 1..5),
+        (if allow_empty { 4 } else { 0 }) => Just(Vec::new()),
+        // an entry without lines next to entries with lines (it lists nothing and changes nothing)
+        3 => (prop::collection::vec((file_name(), line_set()), 1..4), file_name(), 0usize..4).prop_map(|(mut v, n, at)| {
+            let at = at.min(v.len());
+            v.insert(at, (n, BTreeSet::new()));
+            v
+        }),
+        // many files under one pattern (sizes around 256)
+        1 => prop::collection::vec(("[a-z]{1,6}\\.sol", line_set()), 250..300),
+    ]
+}
+
 pub fn findings(category: &'static str, min_patterns: usize) -> impl Strategy<Value = Findings> {
     let names = names_of(category);
     let n = names.len();
     prop::sample::subsequence(names, min_patterns.min(n)..=n).prop_shuffle().prop_flat_map(|chosen| {
         let per: Vec<_> = chosen
             .into_iter()
-            .map(|name| (Just(name.to_string()), prop_oneof![6 => prop::collection::vec((file_name(), line_set()), 1..5), 1 => Just(Vec::new())]))
+            .map(|name| (Just(name.to_string()), files(true)))
             .collect();
         per
     })
